@@ -15,15 +15,15 @@ RULE = ("Hypothesis-generated expression models (trees over all 15 constructors,
 ASSUMPTIONS = [
     "mpmath at 50 digits is the real-arithmetic ground truth",
     "IEEE-754 double semantics of CPython on this platform; libm functions within a few ulp",
-    "cases with an exact intermediate outside [1e-100,1e100] are out of the property's scope (counted as range)",
+    "cases with an exact intermediate outside [1e-100,1e100] ([1e-290,1e290] in the extreme part) are skipped (counted as range)",
     "exactness is asserted only where IEEE-754 makes exact intermediates imply an exact result "
     "(ring operations, division, integer powers, n in {1,2} roots, integer exponents)",
 ]
 
 
-def check(stats, m, env, bare=False, sub="value"):
+def check(stats, m, env, bare=False, sub="value", wide=False):
     stats.case()
-    r, ctx = RE.evaluate(m, env)
+    r, ctx = RE.evaluate(m, env, lo=1e-290, hi=1e290) if wide else RE.evaluate(m, env)
     stats.count("ref:" + r.st)
     if r.st != RE.DEFINED:
         return
@@ -113,6 +113,17 @@ def make_general(stats):
     return test
 
 
+def make_extreme(stats):
+    """Magnitudes up to 1e+-250: inside the double range, far outside what ordinary tests use."""
+    @given(st.data())
+    def test(data):
+        names = data.draw(S.name_lists(1, 2))
+        m = data.draw(S.trees(names, depth=2, leaf=S.extreme_leaves(names)))
+        env = {n: data.draw(S.extreme_values()) for n in names}
+        check(stats, m, env, bare=False, sub="extreme", wide=True)
+    return test
+
+
 def make_exact(stats):
     @given(st.data())
     def test(data):
@@ -143,14 +154,14 @@ def make_exact(stats):
 def parts(tier):
     n = 20000 if tier == "quick" else 400000
     return [hyp_part("general", make_general, int(n * 0.55)), hyp_part("exact", make_exact, int(n * 0.25)),
-            hyp_part("sequence", make_sequence, int(n * 0.2))]
+            hyp_part("sequence", make_sequence, int(n * 0.15)), hyp_part("extreme", make_extreme, int(n * 0.1))]
 
 
 def replay(case):
     if case.get("sub") == "sequence":
         check_sequence(Stats(), case_model(case), [M.point_from_json(p) for p in case["points"]])
         return
-    check(Stats(), case_model(case), case_point(case), bare=True, sub=case.get("sub", "value"))
+    check(Stats(), case_model(case), case_point(case), bare=True, sub=case.get("sub", "value"), wide=case.get("sub") == "extreme")
 
 
 def self_test(tier, agg):
